@@ -29,6 +29,7 @@ From FT Require Proofs.EditSessions Proofs.EditSessionsFull Proofs.EditSessionsA
 From FT Require Gen.UserActions_gen Proofs.UserActionsTie.
 From FT Require Model.Toggle Proofs.EditInit.
 From FT Require Proofs.CoreTieBundle.
+From FT Require Proofs.EditWFEdge Proofs.EditWFNodeExample.
 Import ListNotations.
 Open Scope Z_scope.
 
@@ -285,6 +286,28 @@ Proof. exact EditInit.construct_session_WF. Qed.
 Theorem C07_core_is_generated : FT.Proofs.CoreTieBundle.core_tie_statement.
 Proof. exact FT.Proofs.CoreTieBundle.core_tie. Qed.
 
+(* ---- known finding F-07b, as machine-checked refutations on the faithful model (Proofs/EditWFNodeExample.v): a
+        DIRECT UserAddNode outside its documented preconditions (op_pre) is ACCEPTED (code 0) on a well-formed
+        state and breaks the label / node correspondence: (a) pixels covering another node's mask, (b) no pixels
+        on tracks with a segmentation, (c) pixels in a frame other than the time attribute.  The implementation
+        checks none of the three (witnesses F-07b-* reproduce them on it); every other theorem of this file
+        carries op_pre for UserAddNode. ---- *)
+Theorem C07_direct_add_node_refuted :
+  exists st0, WF st0 /\
+  (exists o, ~ EditWFNode.op_pre st0 o /\ snd (step st0 o) = (0, []) /\ ~ W_seg (fst (step st0 o))) /\
+  (exists o, ~ EditWFNode.op_pre st0 o /\ snd (step st0 o) = (0, []) /\ ~ W_seg (fst (step st0 o)) /\
+             o = EditWFNodeExample.bad_b) /\
+  (exists o, ~ EditWFNode.op_pre st0 o /\ snd (step st0 o) = (0, []) /\ ~ W_seg (fst (step st0 o)) /\
+             o = EditWFNodeExample.bad_c).
+Proof.
+  exists EditWFEdge.exs.
+  destruct EditWFNodeExample.uan_overwrite_breaks_W_seg as (W & A1 & A2 & A3).
+  destruct EditWFNodeExample.uan_no_pixels_breaks_W_seg as (B1 & B2 & B3).
+  destruct EditWFNodeExample.uan_wrong_frame_breaks_W_seg as (C1 & C2 & C3).
+  split; [exact W|]. split; [exists EditWFNodeExample.bad_a; auto|].
+  split; [exists EditWFNodeExample.bad_b; auto|exists EditWFNodeExample.bad_c; auto].
+Qed.
+
 Example C07_ex0_W_seg : seg ex0 = Some sg0 /\ W_seg ex0 /\ ~ In KTime (rp_act (ft ex0)).
 Proof. split; [reflexivity|split; [exact ex0_W_seg|exact (proj1 ex0_cfg)]]. Qed.
 
@@ -380,3 +403,4 @@ Print Assumptions C07_run_paint_calls.
 Print Assumptions C07_user_actions_are_generated.
 Print Assumptions C07_sessions_from_construction.
 Print Assumptions C07_core_is_generated.
+Print Assumptions C07_direct_add_node_refuted.
